@@ -31,7 +31,7 @@ func init() {
 // exprOf renders the single returned expression of a small function, with the
 // receiver fields written s.<field> and parameters by name.
 func exprOf(p *core.Prog, fn *ssa.Function) string {
-	paths := core.Summarize(&core.SymConfig{Fn: fn, Root: func(v ssa.Value) (string, bool) {
+	paths := core.Summarize(&core.SymConfig{Fn: fn, Inline: 2, Root: func(v ssa.Value) (string, bool) {
 		if prm, ok := v.(*ssa.Parameter); ok && len(fn.Params) > 0 && prm == fn.Params[0] && fn.Signature.Recv() != nil {
 			return "s", true
 		}
@@ -112,6 +112,35 @@ func runC13(p *core.Prog, r *core.Report) {
 					"operand class is "+class, p.Pos(div.Pos()))
 			})
 		}
+		// a method may delegate to IndexForStartBlock / IndexForEndBlock instead of dividing itself: the operand it passes
+		// must be of the class the callee expects (a start for the former, an exclusive end for the latter)
+		ifs, ife := p.FuncObj(pkgBlock, "Segmenter.IndexForStartBlock"), p.FuncObj(pkgBlock, "Segmenter.IndexForEndBlock")
+		for i := 0; i < st.NumMethods(); i++ {
+			fn := p.SSA.FuncValue(st.Method(i))
+			if fn == nil || fn.Blocks == nil {
+				continue
+			}
+			cnt := 0
+			core.Instrs(fn, func(in ssa.Instruction) {
+				c := core.CalleeOf(in)
+				if c != ifs && c != ife {
+					return
+				}
+				args := in.(ssa.CallInstruction).Common().Args
+				f, _ := core.LoadedField(core.SkipConv(args[len(args)-1]))
+				if f != initial && f != end {
+					return // a block number given by the caller of the method
+				}
+				n++
+				cnt++
+				want := initial
+				cls := "start"
+				if c == ife {
+					want, cls = end, "exclusive end"
+				}
+				r.Check(f == want, "C13.R2", fmt.Sprintf("%s/index-call#%d", core.FuncName(fn), cnt), "the segmenter's own bound handed to "+c.Name()+" is of the class that function divides correctly (the "+cls+")", "receives the other bound", p.Pos(in.Pos()))
+			})
+		}
 		if n < 4 {
 			core.Undecide("only %d divisions by Segmenter.interval found", n)
 		}
@@ -128,6 +157,38 @@ func runC13(p *core.Prog, r *core.Report) {
 			fn := p.Func(pkgBlock, name)
 			r.Touch(core.FuncName(fn))
 			calls := core.FindInstrs(fn, core.IsCallTo(newRange))
+			// the range may be built by a helper method of the segmenter (the common tail of both builders): the helper's
+			// parameters are then read as the arguments of the call in this builder
+			deparam := func(v ssa.Value) ssa.Value { return v }
+			if len(calls) == 0 {
+				core.Instrs(fn, func(in ssa.Instruction) {
+					ci, ok := in.(ssa.CallInstruction)
+					if !ok {
+						return
+					}
+					h := core.StaticFn(ci.Common())
+					if h == nil || h.Blocks == nil || h.Pkg != fn.Pkg || h.Parent() != nil {
+						return
+					}
+					hc := core.FindInstrs(h, core.IsCallTo(newRange))
+					if len(hc) == 0 {
+						return
+					}
+					calls = hc
+					site := ci
+					deparam = func(v ssa.Value) ssa.Value {
+						if prm, ok := core.SkipConv(v).(*ssa.Parameter); ok {
+							for i, hp := range h.Params {
+								if hp == prm && i < len(site.Common().Args) {
+									return site.Common().Args[i]
+								}
+							}
+						}
+						return v
+					}
+					r.Touch(core.FuncName(h))
+				})
+			}
 			if len(calls) == 0 {
 				core.Undecide("%s: no NewRange call", name)
 			}
@@ -139,7 +200,7 @@ func runC13(p *core.Prog, r *core.Report) {
 					name = fmt.Sprintf("%s#%d", name, ci+1)
 				}
 				base := strings.SplitN(name, "#", 2)[0]
-				lo, hi := c.Call.Args[0], c.Call.Args[1]
+				lo, hi := deparam(c.Call.Args[0]), deparam(c.Call.Args[1])
 				// upper bound = min(floor + interval, exclusiveEndBlock)
 				okClip, okUpper, okLower := false, false, false
 				var floor ssa.Value
@@ -154,9 +215,9 @@ func runC13(p *core.Prog, r *core.Report) {
 						}
 						if bo, ok := other.(*ssa.BinOp); ok && bo.Op == token.ADD {
 							if f, _ := core.LoadedField(bo.Y); f == interval {
-								floor = bo.X
+								floor = deparam(bo.X)
 							} else if f, _ := core.LoadedField(bo.X); f == interval {
-								floor = bo.Y
+								floor = deparam(bo.Y)
 							}
 						}
 					}
